@@ -2528,6 +2528,12 @@ class Deb822DuplicateFieldsParagraphElement(Deb822ParagraphElement):
                     # (the new value may be one of the later occurrences)
                     n.value.parent_element = None
                 self._kvpair_order.remove_node(n)
+        elif not replace_all:
+            # The new value may be another occurrence of the field: an element
+            # stands at one place only, so it has moved here
+            for n in [n for n in original_nodes if n is not node and n.value is value]:
+                original_nodes.remove(n)
+                self._kvpair_order.remove_node(n)
 
     def remove_kvpair_element(self, key):
         # type: (ParagraphKey) -> None
